@@ -46,6 +46,7 @@ DEEP = [
 
 
 def run(ctx, log):
+    progcheck.run_unspecified(ctx, log)
     # enumerated families decided by Sem.v: how function / loop bodies end; names that live in several name spaces
     extra_sem_families = []
     extra_sem_families += progcheck.function_endings_family(ctx.quick)
@@ -54,7 +55,8 @@ def run(ctx, log):
     for s_ in extra_sem_families:
         ctx.seen(("family", s_))
     # the same small programs at every size around the widths the implementation encodes things in (closed-form results)
-    progcheck.run_scale(ctx, log, ['args', 'locals', 'alias', 'literal'])
+    progcheck.run_scale(ctx, log, ['args', 'locals', 'alias', 'literal', 'csc'])
+    progcheck.run_scale_wrapped(ctx, log, ['alias', 'cyclic', 'literal', 'objects', 'temporaries', 'rtnest', 'csc', 'constants', 'locals'])
     progcheck.run_code_boundary(ctx, log)
     rng = ctx.rng
     srcs, asts = progcheck.gen_sources(ctx, 500 if ctx.quick else 8000, max_depth=3)
